@@ -19,6 +19,8 @@ CHECKS = {
          "arguments are synthesised from parameter names and the current state; callables that never returned normally are listed in the evidence (callable_coverage)"),
  "C18": ("freeze as an operation of the world plus subhypergraph results; every structural call that would change an unfrozen copy must raise XGIError and change nothing; the mutator surface is discovered by probing dir(class) and in_place functions on an unfrozen copy and replaying on the frozen network; is_frozen checked on every actor at every step; copies of frozen networks are unfrozen, equal and editable",
          "argument synthesis for probed methods is by parameter name; methods for which no changing arguments are found are reported in the evidence as uncovered"),
+ "C19": ("derived networks as transitions of the simulated world: in-place cleanup / relabelling / largest-component restriction are steps of edit histories (exact refinement + an independent guarantee oracle), the not-in-place variants, subhypergraph, dual, dual-of-dual, <<, complement, cut_to_order, k_skeleton and from_max_simplices create new actors whose birth state must equal the model-side set-theoretic definition and which keep being edited",
+         "no fault dimension (DESIGN C19 honest limit): the simulator contributes history-reached pre-states (empty edges, gapped IDs, frozen sources, mixed labels) and the downstream life of the result; ties between largest components are not pinned; complement of an edgeless network is adopted"),
  "C05": ("step-by-step refinement of three executable reference models (docstring transcriptions) over the full mutator alphabet, fault-free (strict) and fault-injecting (narrow relaxation) runs; swap/shuffle invariants; library error types",
          "the reference models are the trusted base; unspecified orders and automatic IDs are adopted"),
 }
